@@ -255,6 +255,53 @@ def code_of(v):
     return None
 
 
+def _shown_whole(facts, rep):
+    """R17.5: 'an address inside a block shows that block's code' - the codes are 2 to 5 characters long (ICAO1, ICAO2), so a
+    precision on the placeholder, or a formatting trait other than Display, shows something that is no block's code"""
+    from ..mirq import expr
+    n = 0
+    for b in sorted(facts.bodies.values(), key=lambda x: x.name):
+        if "::tests::" in b.name or b.kind == "promoted":
+            continue
+        du = None
+        per_site = {}
+        for bi, t in b.calls():
+            nm = callee_name(t) or ""
+            if nm.startswith("core::fmt::rt::Argument::"):
+                cs = (t.get("span") or {}).get("callsite") or t.get("span") or {}
+                per_site.setdefault((cs.get("file"), cs.get("line"), cs.get("col")), []).append((bi, t))
+        for key, calls in per_site.items():
+            calls.sort(key=lambda x: x[0])
+            for idx, (bi, t) in enumerate(calls):
+                du = du or DefUse(b)
+                e = expr(du, t["args"][0])
+                if not (isinstance(e, tuple) and e[0] == "arg" and len(e) > 2 and e[2] and tuple(e[2])[-1] == "reg"):
+                    continue
+                pl = operand_place(t["args"][0])
+                site = None
+                for s_ in facts.fmt_sites:
+                    cs = s_["span"].get("callsite") or s_["span"]
+                    if (cs["file"], cs["line"], cs["col"]) == key:
+                        site = s_
+                if site is None:
+                    raise Broken("C17: the write! that prints Plane.reg in %s has no template fact" % b.name)
+                for p in site["pieces"]:
+                    if p.get("arg") != idx:
+                        continue
+                    n += 1
+                    why = []
+                    if p.get("prec") is not None:
+                        why.append("precision .%s cuts the code to %s characters (ICAO1/ICAO2 become IC...)" % (p["prec"], p["prec"]))
+                    if p.get("trait") != "Display":
+                        why.append("formatted with %s instead of Display" % p.get("trait"))
+                    rep.oblige(not why, ("reg-shown", b.name, key[1]))
+                    if why:
+                        rep.add(Finding("R17.5", "%s : country code not shown whole" % b.name,
+                                        "%s prints Plane.reg with %s: what is shown is not the block's code" % (b.name, "; ".join(why)),
+                                        "%s:%s" % (key[0], key[1])))
+    rep.instances("R17.5", n, floor=2, what="placeholders that print Plane.reg (table row, Display for Plane)")
+
+
 def run(facts, rep, tier):
     rep.explanation = (
         "R17.1: the MIR of the address->country function is evaluated over an interval partition of [0,2^24) "
@@ -269,6 +316,8 @@ def run(facts, rep, tier):
     rep.rule("R17.4", "every constructor that stores an address into a new row also stores its country, on every path", "P")
     rep.rule("R17.3", "Plane.reg is stored only from icao_to_country(value stored to Plane.icao).1; function is pure", "P")
 
+    rep.rule("R17.5", "the code is shown as stored: every place that prints Plane.reg prints it whole (Display, no precision)", "P")
+    _shown_whole(facts, rep)
     # anchor: the function Plane.reg is computed by
     stores = field_stores(facts, "Plane", "reg")
     fn_names = set()
